@@ -208,6 +208,8 @@ class Cache:
             res.limit = None
             res.group_by = set()
             res.is_summarized = False
+            # a union is always compiled as a subquery
+            res.is_filtered = False
 
         elif isinstance(node, verbs.SubqueryMarker):
             res.cols = {
